@@ -11,7 +11,9 @@ TASK_TIMEOUT = 90
 NPROC = 8
 SHARDS = 8
 RULE = ("a file scenario is one VCF (1-3 chromosomes, optional second decoy sample) written from an abstract per-sample view and run "
-        "through run_stats 2-4 times (plain, --only-snvs, --chromosome on the plain and on the bgzip+tabix file); the per-chromosome "
+        "through run_stats 2-4 times (plain, --only-snvs, --chromosome on the plain and on the bgzip+tabix file); selection files have 3-4 "
+        "chromosomes and are run with every non-empty subset as --chromosome (comma list and repeated option, plain and indexed file, "
+        "file order and reversed); the per-chromosome "
         "call patterns are every sequence of call kinds {0/0, 1/1, 0/1, ./., 0/., partially-missing+phase-tag, non-SNV 0/1, non-SNV 1/1, "
         "het in set 1..3 (SNV or non-SNV)} that TLC enumerates in Gen_C12 up to the length bounds (all kinds for short patterns, the "
         "phase-structure kinds for long ones, interleaved and nested sets included), PS and HP encodings alternating, arbitrary set "
@@ -278,6 +280,38 @@ def scenarios(ctx):
             chroms.append(chrom_from_pattern(rng, nm, p, ids))
         chroms = [c for c in chroms if c["sites"]]        # the empty pattern: a chromosome (or file) without records
         scs.append(make_file(rng, k, "enum", chroms, enc, 2, decoy=(k % 3 == 1)))
+    # ---- chromosome selection: 3-4 chromosomes, every non-empty subset as --chromosome, given as comma list and as repeated
+    #      option, on the plain and on the indexed file, in file order and reversed ----
+    import itertools
+    longer = [p for p in pats if len(p) >= 3] or pats
+    nselfiles = 0
+    for j in range(16 if q else 160):
+        k += 1
+        nch = 3 + (j % 2)
+        names = rng.sample([1, 2, 3, 4, 5][:nch + (j % 3 == 0)], nch)      # file order is not the header order
+        chroms, ids = [], None
+        for nm in names:
+            ids = _ids(rng, 3, reuse=ids)
+            if j % 4 == 3:
+                chroms.append(random_chrom(rng, nm, 2, 3, rng.randint(4, 9), ids))
+            else:
+                chroms.append(chrom_from_pattern(rng, nm, rng.choice(longer), ids))
+        sc = make_file(rng, k, "sel", chroms, "PS" if j % 2 else "HP", 2, decoy=(j % 5 == 0))
+        runs = [{"only": False, "sel": [], "gz": False}]
+        for r in range(1, nch + 1):
+            for sub in itertools.combinations(names, r):
+                orders = [list(sub)] + ([list(reversed(sub))] if r >= 2 else [])
+                for sel in orders:
+                    for gz in (False, True):
+                        for multi in (False, True):
+                            if r == 1 and multi:
+                                continue          # one name: both spellings are the same call
+                            runs.append({"only": rng.random() < 0.1, "sel": sel, "gz": gz, "multi": multi})
+        sc["runs"] = runs
+        sc["ncontigs"] = max(max(names), sc["ncontigs"])
+        scs.append(sc)
+        nselfiles += 1
+    ctx.notes["selection_files_all_subsets"] = nselfiles
     # ---- seeded random files beyond the enumeration bound ----
     for j in range(300 if q else 4000):
         k += 1
